@@ -97,8 +97,8 @@ def main():
 
     p = os.path.join(V, "DESIGN.md")
     t = open(p).read()
-    t = re.sub(r"<!-- BEGIN 13\.2.*?<!-- END 13\.2 -->", "<!-- BEGIN 13.2 (generated by python3 -m tools.mkdesign) -->\n" + sec132 + "\n" + sec133 + "\n<!-- END 13.2 -->",
-               t, flags=re.S)
+    new = "<!-- BEGIN 13.2 (generated by python3 -m tools.mkdesign) -->\n" + sec132 + "\n" + sec133 + "\n<!-- END 13.2 -->"
+    t = re.sub(r"<!-- BEGIN 13\.2.*?<!-- END 13\.2 -->", lambda m: new, t, flags=re.S)
     open(p, "w").write(t)
     print("DESIGN.md: %d fix commits, %d live findings" % (len(log), len(live)))
 
